@@ -160,6 +160,11 @@ def run(tier):
             base = st.gen_fwd_op(rng, "en-us-g2.ctb", inp=u, mode=0, cap=3 * len(u) + 8, argmask=256 | 28)
             ops.append(base + " " + corpus.tpath(dis))
         cases.append(common.Case("c04-dis%d" % di, ["LOGDUMP 1", "HOOK trace 1"], ops, {"table": "en-us-g2.ctb+" + dis}))
+    # witness of the known finding F41 (a `;name` action at an opening delimiter that is never closed ends the pass)
+    f41 = ("space \\s 0\nlowercase a 1\nlowercase b 12\ngrouping grp () 12356,23456\ngrouping grq [] 246,135\nnoback context {grp ;grq*\n")
+    cases.append(common.Case("c04-f41", ["LOGDUMP 1", "HOOK trace 1", "TBL f41.ctb " + common.hexbytes(f41)],
+                             ["FWD f41.ctb 4 600 - 12 %s - -" % common.wide("ab(ab ab"), "FWD f41.ctb 4 600 - 12 %s - -" % common.wide("ab(ab) ab")],
+                             {"table": "f41.ctb", "text": f41}))
     wide = st.wide_cases(rng, 200 if tier == "quick" else 2500, per_table=6, back=True, exact=False, tag="c04w", budget=3000000,
                          modes_f=[0, 0, 4, 4, 1, 4 | 64, 128, 4 | 128, 64])
     for c in wide:
